@@ -121,6 +121,15 @@ def kit():
         def next_update(self, ts, states):
             return {'s': {'h': states['s']['d'] + 1}}
 
+    class ObsIn(Process):
+        """lives INSIDE a generated compartment and watches the whole colony through a glob port that declares a
+        sub-variable of its own (s.e2) - at construction this pushes e2 into every child of the colony"""
+        def ports_schema(self):
+            return {'col': {'*': {'s': {'n': dict(SUB['s']['n']), 'e2': {'_default': 9}}}}}
+
+        def next_update(self, ts, states):
+            return {}
+
     class Plain(Step):
         def ports_schema(self):
             return {'misc': {'z': {'_default': 0, '_updater': 'set'}}}
@@ -159,7 +168,7 @@ def kit():
                         a.setdefault('_delete', []).append('fix')
                 return upd
         return Director
-    _KIT = dict(ObsP=ObsP, ObsS=ObsS, Probe=Probe, Sensor=Sensor, Plain=Plain, Drv2=Drv2,
+    _KIT = dict(ObsP=ObsP, ObsS=ObsS, Probe=Probe, Sensor=Sensor, Plain=Plain, Drv2=Drv2, ObsIn=ObsIn,
                 DirP=director(Process), DirS=director(Step), Holder=K['Holder'])
     return _KIT
 
@@ -173,6 +182,9 @@ def live_update(col, ops):
         p['sns'] = kit()['Sensor']({'timestep': STS[len(INVOKED_TS) % len(STS)] if SLOW[0] else 1})
         INVOKED_TS.append(1)
         t['sns'] = {'r': ('..', 'ref', 's'), 't': ('..', '..', 'tally')}
+        if CTX.get('inner_obs'):
+            p['iobs'] = kit()['ObsIn']()
+            t['iobs'] = {'col': ('..',)}
         if 'drv' in p:
             # (struct.compartment lists the legacy deriver in the processes dict; its follower goes right after it)
             p['drv2'] = kit()['Drv2']()
@@ -360,6 +372,14 @@ def corpus():
     ]
 
 
+def corpus_k11():
+    """known finding K11: compartments generated at run time hold a process whose glob port over the colony declares
+    a sub-variable (s.e2) the existing children lack"""
+    return [{'kind': 'live', 'director': 'process', 'refresh': [], 'extra': 2, 'slow': False, 'entry': 'parts', 'more': {},
+             'inner_obs': True,
+             'hist': [['A', [['generate', 'c01', 1, {'s': {'n': 5}}]]], ['A', [['generate', 'c02', 0, {}]]]]}]
+
+
 def corpus_intervals():
     """a slow sensor (timestep 3) deleted in mid-interval and generated again under the same key before the old
     interval would have ended"""
@@ -378,6 +398,7 @@ def run_impl(c):
     del LOG[:]
     step_dir = c['director'] == 'step'
     CTX['director'] = c['director']
+    CTX['inner_obs'] = bool(c.get('inner_obs'))
     cfg = {'hist': c['hist'], 'refresh': c['refresh']}
     processes = {'holder': K['Holder'](), 'obs_p': K['ObsP']({'name': 'obs_p'}), 'probe': K['Probe']()}
     steps, flow = {}, {}
@@ -462,6 +483,9 @@ def render(c, ob):
 def oracle_raised(c, ob, rng):
     """C10: the engine must survive the history"""
     if ob['status'].startswith('raised'):
+        if c.get('inner_obs') and 'is not a valid path' in ob['status'] and "'e2'" in ob['status']:
+            return [('a process generated at run time declares a new sub-variable under a glob port over a store '
+                     'outside its compartment: ' + ob['status'], 'runtime-glob-subvariable')]
         moved = any(op[0] == 'move' for e in c['hist'] for op in e[1])
         if 'still pending' in ob['status'] and moved and c.get('slow'):
             return [('moving a compartment with an update in flight: ' + ob['status'], 'move-in-flight')]
